@@ -190,15 +190,28 @@ pub fn run(args: &Args) {
                 pkgs.push((name.to_string(), p));
             }
         }
+        // a payload of several I/O-buffer sizes (a writer that sends it in pieces has more than one piece to get right)
+        let big: Vec<u8> = (0..150_001u32).map(|i| (i.wrapping_mul(2654435761) >> 13) as u8).collect();
+        let hdr = encode_wellformed(63, &[(1000, T_STRING, s_v("bigpayload")), (1001, T_STRING, s_v("1"))]);
+        let bytes = assemble(&lead_bytes("bigpayload"), &sig, &hdr, &big, 0);
+        if let Ok(Ok(p)) = guarded(|| Package::parse(&mut &bytes[..])) {
+            pkgs.push(("bigpayload".to_string(), p));
+        }
     }
     if args.get("families") == Some("hash") {
         pkgs.clear();
     }
-    for (pi, (name, pkg)) in pkgs.iter().enumerate() {
+    // the canonical bytes of every package, written before any sink has failed (a writer that keeps state between
+    // calls must not be able to spoil the reference)
+    let canons: Vec<(Vec<u8>, Vec<u8>)> = pkgs.iter().map(|(_, pkg)| {
         let mut canon = vec![];
         pkg.write(&mut canon).unwrap();
         let mut canon_meta = vec![];
         pkg.metadata.write(&mut canon_meta).unwrap();
+        (canon, canon_meta)
+    }).collect();
+    for (pi, (name, pkg)) in pkgs.iter().enumerate() {
+        let (canon, canon_meta) = canons[pi].clone();
         let wp = |s: &mut Sink| pkg.write(s);
         let wm = |s: &mut Sink| pkg.metadata.write(s);
         // fault enumeration: every failure offset of the metadata, a stride through the payload
@@ -242,7 +255,10 @@ pub fn run(args: &Args) {
             }
         }
         // reader side: chunked sources
-        let whole = Package::parse(&mut &canon[..]).unwrap();
+        let whole = match guarded(|| Package::parse(&mut &canon[..])) {
+            Ok(Ok(p)) => p,
+            _ => { t.emit(json!({"event":"CanonUnreadable","pkg":name})); continue; }
+        };
         for (k, random) in [(1usize, false), (2, false), (3, false), (7, false), (16, false), (13, true), (5, true)] {
             let mut src = Drip { data: &canon, pos: 0, k, rng: if random { Some(Rng::new(args.seed() + k as u64)) } else { None }, cur: 0, intr: [0usize, 2, 0, 3, 5, 0, 2][k % 7], calls: 0 };
             let r = guarded(|| Package::parse(&mut src));
